@@ -5,6 +5,7 @@ package c12
 import (
 	"fmt"
 	"math/big"
+	"math/bits"
 	"testing"
 
 	"github.com/iotaledger/iota.go/trinary"
@@ -136,6 +137,9 @@ func TestParamsExactPowers(t *testing.T) {
 
 // ---- lane test ----
 
+// W: lanes per bit plane = bits per machine word of the build target.
+const W = bits.UintSize
+
 // laneKinds: how each of the 64 lanes is built relative to (s, T)
 //
 //	0 random hash                      3 exactly s-1 zeros, value just above T (d < lx+1: must not be required, may be rejected)
@@ -176,9 +180,9 @@ func checkLanes(c laneCase) (h.Info, error) {
 	step := ref.Pow3(s - 1) // hashes with exactly s-1 trailing zeros have (h-1) = m * 3^(s-1), 3 does not divide m
 	sd := c.Seed
 	var l, hh [243]uint
-	diffs := make([]*big.Int, 64)
+	diffs := make([]*big.Int, W)
 	bigStage := false
-	for j := 0; j < 64; j++ {
+	for j := 0; j < W; j++ {
 		var tr []int8
 		rnd := func(zeros int) []int8 {
 			x := make([]int8, 243)
@@ -252,12 +256,12 @@ func checkLanes(c laneCase) (h.Info, error) {
 		}
 	}
 	got := powv2.VerifCheckStateTrits(&l, &hh, powv2.VerifSufficientTrailingZeros(make([]byte, c.DataLen), c.Target), powv2.VerifTargetHash(make([]byte, c.DataLen), c.Target))
-	firstClear := 64
+	firstClear := W
 	anyClear := false
 	for j, d := range diffs {
 		if d.Cmp(lx) > 0 {
 			anyClear = true
-			if firstClear == 64 {
+			if firstClear == W {
 				firstClear = j
 			}
 		}
@@ -266,8 +270,8 @@ func checkLanes(c laneCase) (h.Info, error) {
 	switch {
 	case anyClear && firstClear == 0:
 		cls = "lanes/qualifying-lane0"
-	case anyClear && firstClear == 63:
-		cls = "lanes/qualifying-lane63"
+	case anyClear && firstClear == W-1:
+		cls = "lanes/qualifying-last-lane"
 	case anyClear:
 		cls = "lanes/qualifying-middle"
 	}
@@ -275,7 +279,7 @@ func checkLanes(c laneCase) (h.Info, error) {
 		cls += "+bigint-stage"
 	}
 	info := h.Info{Class: cls, NT: bigStage}
-	if got < 64 {
+	if got < W {
 		if got < 0 || diffs[got].Cmp(lx) < 0 {
 			return info, fmt.Errorf("checkStateTrits (len %d, target %d, s=%d) returned lane %d whose difficulty %s is below len*target = %s (unsound)", ell, c.Target, s, got, diffs[got], lx)
 		}
@@ -316,7 +320,7 @@ func genLanes(t *rapid.T) laneCase {
 	}
 	k := rapid.IntRange(0, 3).Draw(t, "k")
 	for i := 0; i < k; i++ {
-		lane := h.OneOf(t, "lane", 0, 63, rapid.IntRange(0, 63).Draw(t, "anylane"))
+		lane := h.OneOf(t, "lane", 0, W-1, rapid.IntRange(0, W-1).Draw(t, "anylane"))
 		c.Kinds[lane] = h.OneOf(t, "kind", 1, 3, 4, 4, 5, 6, 7, 8)
 	}
 	return c
@@ -326,7 +330,7 @@ func TestLanes(t *testing.T) {
 	h.Run(t, h.Sub[laneCase]{
 		Prop: "C12", Name: "lane-test(hook)", N: 8000,
 		Gen: genLanes, Check: checkLanes,
-		Require: []string{"lanes/none-qualifies+bigint-stage", "lanes/qualifying-lane0+bigint-stage", "lanes/qualifying-lane63+bigint-stage", "lanes/qualifying-middle+bigint-stage"},
-		Rule:    "hook: 64-lane bit planes for drawn (len, target) with s = 2..40 (len*target up to 2^64): background lanes (random / too few zeros / exactly s-1 zeros with value just above the target hash or above it by a value in [3^e, 3^(e+1)) for every magnitude e, or the smallest values whose difficulty is len*target - 1) plus up to 3 interesting lanes at 0, 63 or random (>= s zeros; exactly s-1 zeros with value at / just below / just above the target hash, above or below it by such a value, or random); result < 64 => that lane has difficulty >= len*target (sound); some lane with difficulty > len*target => result < 64 (complete); non-trivial = a lane with exactly s-1 zeros exists (big-integer stage reached); distinct by case",
+		Require: []string{"lanes/none-qualifies+bigint-stage", "lanes/qualifying-lane0+bigint-stage", "lanes/qualifying-last-lane+bigint-stage", "lanes/qualifying-middle+bigint-stage"},
+		Rule:    "hook: W-lane bit planes (W = bits per machine word: 64, or 32 in the GOARCH=386 variant) for drawn (len, target) with s = 2..40 (len*target up to 2^64): background lanes (random / too few zeros / exactly s-1 zeros with value just above the target hash or above it by a value in [3^e, 3^(e+1)) for every magnitude e, or the smallest values whose difficulty is len*target - 1) plus up to 3 interesting lanes at 0, W-1 or random (>= s zeros; exactly s-1 zeros with value at / just below / just above the target hash, above or below it by such a value, or random); result < W => that lane has difficulty >= len*target (sound); some lane with difficulty > len*target => result < W (complete); non-trivial = a lane with exactly s-1 zeros exists (big-integer stage reached); distinct by case",
 	})
 }
